@@ -77,6 +77,7 @@ func cwsTok(img *monogfx.MonoImg, segs []string) string {
 //   a whole call history on ONE image object: NewImage(W,H) on a fresh object, then the calls op... in the order given:
 //     F:n:p SetFont   Z:h:v SetTextSize   P:s SetCharSpacingCompensation   W:b SetTextWrap   C:x:y SetCursor   K:b SetTextColor
 //     N:w:h NewImage  B:w:h:hex CreateFromBytes          (re-creation of the canvas on the same object)
+//     X:x:y:w:h SetBoundingBox   I:b InvertPixels
 //     S:hex StrWidth -> n    L LineHeight -> n    G:c GetCharWidth/GetCharStart -> w/s
 //     R:hex RenderText -> canvas    D:x:y:c:col:bg:h:v DrawChar -> canvas                  (calls without result print ".")
 //   then the final case on three objects A, B, C that all went through that history; the canvas is cleared first
@@ -137,6 +138,10 @@ func sessOp(img *monogfx.MonoImg, tok string) string {
 		img.NewImage(atoi(f[1]), atoi(f[2]))
 	case "B":
 		_ = img.CreateFromBytes(atoi(f[1]), atoi(f[2]), append([]byte{}, unhx(f[3])...))
+	case "X":
+		img.SetBoundingBox(atoi(f[1]), atoi(f[2]), atoi(f[3]), atoi(f[4]))
+	case "I":
+		img.InvertPixels(abool(f[1]))
 	case "S":
 		return strconv.Itoa(img.StrWidth(string(unhx(f[1]))))
 	case "L":
@@ -335,6 +340,7 @@ type sessGen struct {
 	last       int // byte(rune) of the last character a query or rendering handled on the object (-1: none yet)
 	hmax, vmax int // largest text size any SetTextSize of the session asks for
 	W, H       int
+	bstr       []byte // the string the bracketed queries measured (sessions of the kind "same queries around one setter")
 }
 
 func (g *sessGen) add(format string, a ...interface{}) { g.ops = append(g.ops, fmt.Sprintf(format, a...)) }
@@ -443,10 +449,103 @@ func (g *sessGen) query(coincide bool) {
 	}
 }
 
+// The SAME metric queries (StrWidth of one string of >= 2 characters, LineHeight, GetCharWidth/GetCharStart of one byte)
+// before and after ONE setter call, for every kind of setter; 1-3 such setters in a row, the queries between them.  An
+// answer remembered from the first round that a setter forgets to drop comes back in the second round.  The bounding box
+// and the inversion flag are put back after their round (the final case is specified for the whole, non-inverted canvas);
+// with them in force a rendering is compared with the model only.
+func (g *sessGen) brackets() {
+	r := g.r
+	n := r.Range(2, 5)
+	s := []byte{}
+	for i := 0; i < n; i++ {
+		s = append(s, g.char()...)
+	}
+	g.bstr = s
+	rb := runeBytes(string(s))
+	qs := []string{"S:" + hx(s)}
+	if r.Chance(80) {
+		qs = append(qs, "L")
+	}
+	if r.Chance(80) {
+		c := int(rb[r.Intn(len(rb))])
+		if r.Chance(20) {
+			c = r.Intn(256)
+		}
+		qs = append(qs, fmt.Sprintf("G:%d", c))
+	}
+	for i := len(qs) - 1; i > 0; i-- {
+		j := r.Intn(i + 1)
+		qs[i], qs[j] = qs[j], qs[i]
+	}
+	ask := func() { g.ops = append(g.ops, qs...) }
+	render := func() {
+		if r.Chance(50) {
+			g.add("C:%d:%d", r.Range(0, 12), r.Range(0, 8))
+			g.add("R:%s", hx(s))
+		}
+	}
+	font, prop, h, v, sp, wrap := 0, true, 1, 1, 0, true // what a fresh object has
+	ask()
+	for k, nb := 0, r.Range(1, 3); k < nb; k++ {
+		switch r.Intn(10) {
+		case 0:
+			for f, p := font, prop; f == font && p == prop; {
+				font, prop = r.Pick(0, 1, 2, 0, 1, 2, 3, -1), r.Bool()
+			}
+			g.add("F:%d:%s", font, b01(prop))
+			ask()
+		case 1:
+			for a, b := h, v; a == h && b == v; {
+				h, v = r.Range(1, 4), r.Range(1, 4)
+			}
+			g.hmax, g.vmax = maxInt(g.hmax, h), maxInt(g.vmax, v)
+			g.add("Z:%d:%d", h, v)
+			ask()
+		case 2:
+			for a := sp; a == sp; {
+				sp = r.Pick(0, 1, 2, 3, 5)
+			}
+			g.add("P:%d", sp)
+			ask()
+		case 3:
+			wrap = !wrap
+			g.add("W:%s", b01(wrap))
+			ask()
+		case 4:
+			g.add("C:%d:%d", r.Range(-3, 20), r.Range(-3, 12))
+			ask()
+		case 5:
+			g.add("K:%s", b01(r.Chance(85)))
+			ask()
+		case 6:
+			g.add("X:%d:%d:%d:%d", r.Range(-2, 8), r.Range(-2, 5), r.Range(0, 40), r.Range(0, 16))
+			ask()
+			render()
+			g.add("X:@")
+		case 7:
+			g.add("I:1")
+			ask()
+			render()
+			g.add("I:0")
+		default:
+			g.recreate()
+			font, prop, h, v, wrap = 0, true, 1, 1, true
+			ask()
+		}
+	}
+	g.last = int(rb[len(rb)-1])
+}
+
 func genTextSession(r *Rng) {
 	g := &sessGen{r: r, last: -1, hmax: 1, vmax: 1}
-	kind := r.Intn(10)
+	kind := r.Intn(14)
 	switch {
+	case kind >= 10: // the same queries before and after each single setter call
+		for k, n := 0, r.Range(0, 2); k < n; k++ {
+			g.setter()
+		}
+		g.brackets()
 	case kind <= 3: // any calls in any order
 		for k, n := 0, r.Range(2, 9); k < n; k++ {
 			if r.Chance(70) {
@@ -483,6 +582,9 @@ func genTextSession(r *Rng) {
 	// the text colour of a fresh object is "off": switch it on somewhere (it survives re-creation)
 	if r.Chance(90) {
 		at := r.Intn(len(g.ops) + 1)
+		if g.bstr != nil {
+			at = 0 // nothing but the one setter between two rounds of queries
+		}
 		g.ops = append(g.ops[:at], append([]string{"K:1"}, g.ops[at:]...)...)
 	}
 	// final case
@@ -501,7 +603,12 @@ func genTextSession(r *Rng) {
 		g.hmax, g.vmax = maxInt(g.hmax, h), maxInt(g.vmax, v)
 		fin = fmt.Sprintf("D:%d:%d:%d:%s:%s:%d:%d", cx, cy, int(runeBytes(string(c))[0]), b01(col), b01(col != r.Chance(15)), h, v)
 	} else {
-		bs := g.str(r.Chance(65), 5)
+		bs := []byte(nil)
+		if g.bstr != nil && r.Chance(75) {
+			bs = g.bstr // the string measured before: the metrics of the final case are one more round of the same query
+		} else {
+			bs = g.str(r.Chance(65), 5)
+		}
 		nl = lineCount(bs)
 		fin = fmt.Sprintf("R:%d:%d:%d:%s", r.Pick(0, 0, 1), cx, cy, hx(bs))
 	}
@@ -521,6 +628,8 @@ func genTextSession(r *Rng) {
 		switch {
 		case op == "N:@":
 			op = fmt.Sprintf("N:%d:%d", g.W, g.H)
+		case op == "X:@":
+			op = fmt.Sprintf("X:0:0:%d:%d", g.W, g.H)
 		case strings.HasPrefix(op, "B:@:"):
 			need := g.W / 8 * g.H
 			l := need
